@@ -38,14 +38,14 @@ TRUSTED = ["torch.save/torch.load (pickle) of whole nn.Module objects incl. thei
 ASSUMPTIONS = ["'continuing with the same calls': the call program is split at the checkpoint into (calls up to it, continuation); all arms execute exactly the same calls, the continuation of a split call carries no optimizer/scheduler arguments (those re-create the optimizers in the library)",
                "'saving it together with its data' = save_raw_data=True; the save_raw_data=False + from_file(dset=fresh dataset) route is exercised only for configurations without a dataset optimizer / dataset constraints (the dataset's optimizer is not in the file on that route)",
                "pinned stream: every arm sets p.rng = s (public setter) before the first continuation call; natural stream: nothing is set, the reloaded object's full-batch permutation differs (summation order only)",
-               "tolerances: relative to the largest magnitude of the uninterrupted observable; pinned 1e-6 (measured: exactly 0), natural 1e-5 (property text). In the natural stream the floating-point observables are judged only for well-conditioned cases: the uninterrupted run is repeated with two other full-batch orders and must move by <= 5e-7 (measured on 330 cases: reload deviation / batch-order deviation <= 3.5 wherever the latter exceeds 1e-7); otherwise (Adam-amplified rounding noise, large cyclic LRs) only iteration count, constraints and LR-history keys/lengths are judged there and the pinned stream judges the same case deterministically",
+               "tolerances: relative to the largest magnitude of the uninterrupted observable; pinned 1e-6 (measured: exactly 0), natural 1e-5 (property text). In the natural stream the floating-point observables are judged only for well-conditioned cases: the uninterrupted run is repeated with two other full-batch orders and must move by <= 2e-7 (measured: among 668 cases judged at a 5e-7 floor the largest reload/clone deviation was 4.9e-6, so the floor was tightened to keep a margin below 1e-5); otherwise (Adam-amplified rounding noise, large cyclic LRs) only iteration count, constraints and LR-history keys/lengths are judged there and the pinned stream judges the same case deterministically",
                "schedulers are given explicit parameters (gamma, total_iters, step sizes) so that a split call builds the same scheduler as the unsplit one would"]
 EXPLANATION = ("Theorems in Props/C05.lean are about Model/Checkpoint.lean (which imports the C01 serializer model); each run performs real "
                "reconstructions with every split point, compares uninterrupted/reloaded/cloned runs, and replays the recorded event trace on the model.")
 
 TOL_PINNED = 1e-6
 TOL_NATURAL = 1e-5
-NATURAL_COND = 5e-7     # natural stream: float observables judged only if the batch order alone moves the uninterrupted run by less
+NATURAL_COND = 2e-7     # natural stream: float observables judged only if the batch order alone moves the uninterrupted run by less
 OBSERVABLES = ("num_iters", "iter_losses", "iter_lrs", "obj", "probe", "constraints")
 
 
